@@ -2,16 +2,20 @@
 
 PUB, CLOSE, ATT, STOP, CONS = 0, 1, 2, 3, 4
 
-def gen_pkts(rng, n, start=1):
+def gen_pkts(rng, n, start=1, flv=False):
     out = []
     for i in range(n):
-        k = rng.choices([0, 1, 2, 3, 4], weights=[2, 6, 2, 1, 1])[0]
+        if flv:   # FLV tags: media, key frame, video/audio sequence header, metadata (every tag is cached media or a header)
+            k = rng.choices([1, 2, 3, 4, 5], weights=[6, 2, 1, 1, 1])[0]
+        else:
+            k = rng.choices([0, 1, 2, 3, 4], weights=[2, 6, 2, 1, 1])[0]
         out.append([start + i, k])
     return out
 
-def rand_case(rng, variant, max_cons=3, max_pkts=12, max_len=70, with_close=True, maxq=1000, panic_p=0.15):
+def rand_case(rng, variant, max_cons=3, max_pkts=12, max_len=70, with_close=True, maxq=1000, panic_p=0.15, flv_p=0.3):
     n = rng.randint(1, max_cons)
-    pkts = gen_pkts(rng, rng.randint(0, max_pkts))
+    flv = rng.random() < flv_p
+    pkts = gen_pkts(rng, rng.randint(0, max_pkts), flv=flv)
     stop = [rng.random() < 0.4 for _ in range(n)]
     gop = rng.random() < 0.6
     w = {PUB: 6, CLOSE: 1.2 if with_close else 0, ATT: 2.5, STOP: 1.0, CONS: 5}
@@ -26,7 +30,7 @@ def rand_case(rng, variant, max_cons=3, max_pkts=12, max_len=70, with_close=True
             k, c = sched[-1]
         sched.append([k, c])
     panic = [rng.randint(1, 4) if rng.random() < panic_p else 0 for _ in range(n)]
-    return [variant, n, maxq, gop, pkts, stop, sched, panic]
+    return [variant, n, maxq, gop, pkts, stop, sched, panic, flv]
 
 def drain(n, rounds=6):
     """suffix that lets every thread run to completion (fair round robin)"""
